@@ -3,7 +3,8 @@ import glob, os
 TRUSTED_BASE = ['Coq 8.16.1 kernel (coqc); coqchk re-check in setup; vm_compute used in finite sweeps and Examples; native_compute not used',
  'axioms: none (every property theorem is reported "Closed under the global context" by Print Assumptions)',
  'extraction: Require Extraction + ExtrOcamlBasic only (its Extract Inductive bool/option/unit/list/prod/sumbool/sumor and inlined andb/orb/negb/fst/snd); no '
- 'Extract Constant of our own; OCaml 4.13.1 ocamlopt; hand-written runner/driver.ml (parsing, comparison)',
+ 'Extract Constant of our own; OCaml 4.13.1 ocamlopt; hand-written runner/driver.ml (parsing, comparison); cross-checked on every run by replaying a sample of the trace inside Coq (vm_compute of Dispatch.step, tools/coqcross.py)',
+ 'constants translator tools/srcconsts.py (a line parser for const items, bitflags members and enum discriminants of /repo/src; arithmetic only) and the hand-written pairing tools/consts_map.py; the equality of each pair is decided by coqc',
  'correspondence check: Rust harness /verif/harness (LedgerHal, ModelTransport, emulated MMIO/PCI devices, reference devices, generators) built from /repo '
  'working tree with --cfg virtio_drivers_verif, debug and release; a divergence the generators do not reach is not detected',
  'the hand-written Gallina model (coq/theories/Model) and the flat encodings in Extract/Dispatch.v',
